@@ -23,6 +23,31 @@ pub struct Tokenised {
     pub terminated: bool,
 }
 
+/// The field-map API also documents numbered tags (`:50#1:`, `:50L#2:`): digits after a '#', after the
+/// optional option letter. Returns Some(len of the marker) if `line` opens a field in that wider sense.
+pub fn tag_prefix_numbered(line: &str) -> Option<usize> {
+    if let Some(n) = tag_prefix(line) {
+        return Some(n);
+    }
+    let b = line.as_bytes();
+    if b.len() < 6 || b[0] != b':' || !b[1].is_ascii_digit() || !b[2].is_ascii_digit() {
+        return None;
+    }
+    let mut i = 3;
+    if b[i].is_ascii_uppercase() {
+        i += 1;
+    }
+    if i >= b.len() || b[i] != b'#' {
+        return None;
+    }
+    i += 1;
+    let d0 = i;
+    while i < b.len() && b[i].is_ascii_digit() {
+        i += 1;
+    }
+    if i > d0 && i < b.len() && b[i] == b':' { Some(i + 1) } else { None }
+}
+
 /// Returns Some(len of ":TAG:") if `line` opens a field.
 pub fn tag_prefix(line: &str) -> Option<usize> {
     let b = line.as_bytes();
@@ -38,6 +63,11 @@ pub fn tag_prefix(line: &str) -> Option<usize> {
 }
 
 pub fn tokenize(text: &str) -> Tokenised {
+    tokenize_opt(text, false)
+}
+
+/// `numbered`: numbered tags open a field as well (the public field-map API's reading)
+pub fn tokenize_opt(text: &str, numbered: bool) -> Tokenised {
     let mut out = Tokenised::default();
     // split into (start offset, line without terminator, offset after terminator)
     let mut lines: Vec<(usize, &str, usize)> = Vec::new();
@@ -76,7 +106,7 @@ pub fn tokenize(text: &str) -> Tokenised {
             out.terminated = true;
             return out;
         }
-        if let Some(plen) = tag_prefix(line) {
+        if let Some(plen) = if numbered { tag_prefix_numbered(line) } else { tag_prefix(line) } {
             if let Some((tag, parts, s)) = cur.take() {
                 out.tokens.push(finish(tag, parts, s, start));
             }
